@@ -27,7 +27,17 @@ def script_for(outcome):
         'error': [mk(500, 'application/json', perm)],
         'retry_ok': [mk(500, 'application/json', temp), mk(200, 'application/json', '{}')],
         'retry_error': [mk(503, 'application/json', temp), mk(400, 'application/json', perm)],
+        'conn_error': [requests_connection_error()],
+        'bad_body': [mk(500, 'application/json', '{"error": "not a list"}')],
     }[outcome]
+
+
+def requests_connection_error():
+    import requests
+    return requests.exceptions.ConnectionError('connection refused (scripted)')
+
+
+FAILING = ('notfound', 'error', 'retry_error', 'conn_error', 'bad_body')
 
 
 class Recorder:
@@ -65,7 +75,11 @@ def observe(n, outcomes):
             try:
                 node.request('GET', 'chains/main/blocks/head')
                 res = 'ok'
-            except RpcError:
+            except (RpcError, AssertionError):
+                res = 'err'
+            except Exception as e:       # transport failure raised by the HTTP library
+                if type(e).__name__ != 'ConnectionError':
+                    raise
                 res = 'err'
             hit = sorted({int(u.split('//node')[1].split('.')[0]) for u in rec.urls})
             obs.append((hit, res, len(rec.urls)))
@@ -78,12 +92,12 @@ def compare(ctx, n, log, sig='C28:replay'):
     outcomes = [e[1] for e in log]
     obs = observe(n, outcomes)
     for i, ((node, o), (hit, res, k)) in enumerate(zip(log, obs)):
-        failed_before = any(e[1] in ('notfound', 'error', 'retry_error') for e in log[:i])
+        failed_before = any(e[1] in FAILING for e in log[:i])
         want_res = 'ok' if o in ('ok', 'retry_ok') else 'err'
         want_k = 2 if o.startswith('retry') else 1
         if hit != [node]:
             # the only deviation pytezos is known to have: the pointer is not advanced by a failing request
-            fails = sum(1 for e in log[:i] if e[1] in ('notfound', 'error', 'retry_error'))
+            fails = sum(1 for e in log[:i] if e[1] in FAILING)
             predicted = (i - fails) % n
             cls = 'after-failure-not-advanced' if failed_before and hit == [predicted] else 'wrong-node'
             ctx.mismatch('%s:%s' % (sig, cls), 'request %d of %s with N=%d went to node(s) %s, model says node %d' % (i + 1, outcomes, n, hit, node),
@@ -97,12 +111,12 @@ def compare(ctx, n, log, sig='C28:replay'):
 
 def run(ctx):
     boundary.install()
-    ctx.rule = ('Leg A/B: every sequence of up to L logical requests over 5 outcome kinds (success, 404, permanent 5xx, transient-then-success, '
-                'transient-then-error) for N=1..4 nodes; each maximal behaviour is replayed against a real RpcMultiNode and the node URL of every '
+    ctx.rule = ('Leg A/B: every sequence of up to L logical requests over 7 outcome kinds (success, 404, permanent 5xx, transient-then-success, '
+                'transient-then-error, transport failure raised by the HTTP library, 5xx with a malformed JSON body) for N=1..4 nodes; each maximal behaviour is replayed against a real RpcMultiNode and the node URL of every '
                 'HTTP attempt is observed at the requests boundary; non-trivial = contains at least one failing request before another request. '
                 'Leg C: random outcome sequences recorded and validated by MultiNodeTrace.')
     ctx.assumptions = ['node identity is observed from the URL passed to requests.request']
-    L = 4 if ctx.quick else 6
+    L = 4 if ctx.quick else 5
     for n in (1, 2, 3, 4):
         r = ctx.tlc('MultiNode', CFG % (n, L), name='MultiNode_N%d' % n, dump=True)
         ctx.require_no_violation(r, 'MultiNode N=%d' % n)
@@ -120,7 +134,7 @@ def run(ctx):
     traces = []
     for t in range(200 if ctx.quick else 5000):
         n = rng.randint(1, 5)
-        outcomes = [rng.choice(['ok', 'ok', 'notfound', 'error', 'retry_ok', 'retry_error']) for _ in range(rng.randint(1, 12))]
+        outcomes = [rng.choice(['ok', 'ok', 'notfound', 'error', 'retry_ok', 'retry_error', 'conn_error', 'bad_body']) for _ in range(rng.randint(1, 12))]
         obs = observe(n, outcomes)
         ev = []
         for o, (hit, res, k) in zip(outcomes, obs):
